@@ -1163,3 +1163,286 @@ func checkWALDecoderAcceptsWhatAddStores(c *Ctx, rule string) {
 		"UnmarshalWAL fails only on nil input or a YAML error",
 		"UnmarshalWAL rejects entries under `"+bad+"`, a content condition WAL.Add does not enforce: an entry Add accepted makes every ListEntries covering it fail")
 }
+
+// checkUploadBatchProtocol (C04, C06): the collector of uploadBundle keeps received entries in a batch and writes
+// file lists from it. Typestate of the batch over the collector's CFG:
+//   empty --append--> dirty --write(list)--> written --reset--> empty
+// obligations: every received entry is appended (the receive case appends filePacked2BundleEntry of the received
+// value); a batch is written exactly when it holds entriesPerFile entries; after a write the batch is reset before
+// the next append; the bundle descriptor is written only with an empty or written batch (the final `len != 0` test
+// guards the last write); a write never happens on an empty batch.
+func checkUploadBatchProtocol(c *Ctx, rule string) {
+	p := c.P
+	f := p.Func("pkg/core.uploadBundle")
+	b := p.BodyOf(f)
+	info := f.Info()
+	// the batch: the slice passed to uploadBundleEntriesFileList
+	var batch *types.Var
+	writes := b.findCalls(callTo("pkg/core.uploadBundleEntriesFileList"), false)
+	for _, w := range writes {
+		if len(w.Args) == 3 {
+			if id, ok := ast.Unparen(w.Args[2]).(*ast.Ident); ok {
+				if v, ok := info.Uses[id].(*types.Var); ok {
+					if batch != nil && batch != v {
+						c.fail(rule, f.ID+":batch", p.Pos(w.Pos()), "file lists are written from different variables: the batch protocol cannot be followed")
+						return
+					}
+					batch = v
+				}
+			}
+		}
+	}
+	if batch == nil || len(writes) != 2 {
+		c.softUndecided("%s: uploadBundle no longer writes its file lists from one batch variable at two sites (threshold, final)", rule)
+		return
+	}
+	isAppend := func(n ast.Node) bool {
+		as, ok := n.(*ast.AssignStmt)
+		if !ok || len(as.Lhs) != 1 || len(as.Rhs) != 1 || !isVar(info, as.Lhs[0], batch) {
+			return false
+		}
+		call, ok := ast.Unparen(as.Rhs[0]).(*ast.CallExpr)
+		return ok && calleeID(info, call) == "builtin.append" && len(call.Args) >= 2 && isVar(info, call.Args[0], batch)
+	}
+	isReset := func(n ast.Node) bool {
+		as, ok := n.(*ast.AssignStmt)
+		if !ok || len(as.Lhs) != 1 || len(as.Rhs) != 1 || !isVar(info, as.Lhs[0], batch) {
+			return false
+		}
+		if se, ok := ast.Unparen(as.Rhs[0]).(*ast.SliceExpr); ok && isVar(info, se.X, batch) && se.Low == nil && se.High != nil {
+			if tv, ok := info.Types[se.High]; ok && tv.Value != nil && tv.Value.ExactString() == "0" {
+				return true
+			}
+		}
+		if call, ok := ast.Unparen(as.Rhs[0]).(*ast.CallExpr); ok && calleeID(info, call) == "builtin.make" {
+			return true
+		}
+		return false
+	}
+	lenCmp := func(cond ast.Expr) (op token.Token, rhs string, ok bool) {
+		be, isBin := ast.Unparen(cond).(*ast.BinaryExpr)
+		if !isBin {
+			return 0, "", false
+		}
+		call, isCall := ast.Unparen(be.X).(*ast.CallExpr)
+		if !isCall || calleeID(info, call) != "builtin.len" || len(call.Args) != 1 || !isVar(info, call.Args[0], batch) {
+			return 0, "", false
+		}
+		return be.Op, describeExpr(f, be.Y, 0), true
+	}
+	const empty, dirty, written = 1, 2, 4
+	var problems []string
+	var probPos []token.Pos
+	report := func(n ast.Node, msg string) {
+		for _, m := range problems {
+			if m == msg {
+				return
+			}
+		}
+		problems = append(problems, msg)
+		probPos = append(probPos, n.Pos())
+	}
+	isDesc := callTo("pkg/core.uploadBundleDescriptor")
+	nAppend := 0
+	b.run(flowSpec{
+		entry: empty,
+		node: func(n ast.Node, s uint64) uint64 {
+			if isAppend(n) {
+				nAppend++
+				if s&written != 0 {
+					report(n, "an entry is appended to a batch that was already written as a file list and not reset: the next list repeats the entries of the previous one")
+				}
+				return dirty
+			}
+			if isReset(n) {
+				return empty
+			}
+			for _, call := range callsIn(n) {
+				if calleeID(info, call) == "pkg/core.uploadBundleEntriesFileList" {
+					if s&empty != 0 {
+						report(call, "a file list can be written from an empty batch")
+					}
+					s = written
+				}
+				if isDesc(b, call) && s&dirty != 0 {
+					report(call, "the bundle descriptor is written while received entries are still in the batch, not in any file list: those files are missing from the bundle")
+				}
+			}
+			return s
+		},
+		edge: func(blk *cfg.Block, i int, s uint64) uint64 {
+			cond := condOf(blk)
+			if cond == nil {
+				return s
+			}
+			op, rhs, ok := lenCmp(cond)
+			if !ok || rhs != "const:0" {
+				return s
+			}
+			// len(batch) != 0 : false edge => empty ; len(batch) == 0 : true edge => empty
+			emptyEdge := -1
+			switch op {
+			case token.NEQ, token.GTR:
+				emptyEdge = 1
+			case token.EQL:
+				emptyEdge = 0
+			}
+			if i == emptyEdge {
+				// only an unwritten-dirty batch can be non-empty; a written one was reset or is being left behind
+				if s&(empty|written) != 0 || s&dirty != 0 {
+					return empty
+				}
+			} else if emptyEdge >= 0 {
+				return s &^ empty
+			}
+			return s
+		},
+	})
+	// the threshold test
+	okThreshold := false
+	ast.Inspect(f.Decl.Body, func(n ast.Node) bool {
+		ifs, ok := n.(*ast.IfStmt)
+		if !ok {
+			return true
+		}
+		op, rhs, isLen := lenCmp(ifs.Cond)
+		if !isLen || rhs == "const:0" {
+			return true
+		}
+		hasWrite := false
+		ast.Inspect(ifs.Body, func(m ast.Node) bool {
+			if call, ok := m.(*ast.CallExpr); ok && calleeID(info, call) == "pkg/core.uploadBundleEntriesFileList" {
+				hasWrite = true
+			}
+			return true
+		})
+		if hasWrite && (op == token.EQL || op == token.GEQ) && rhs == "conv:int(param#2)" {
+			okThreshold = true
+		}
+		return true
+	})
+	// the received value is what gets appended
+	okRecv := false
+	ast.Inspect(f.Decl.Body, func(n ast.Node) bool {
+		cc, ok := n.(*ast.CommClause)
+		if !ok {
+			return true
+		}
+		as, ok := cc.Comm.(*ast.AssignStmt)
+		if !ok || len(as.Lhs) != 1 {
+			return true
+		}
+		rid, ok := as.Lhs[0].(*ast.Ident)
+		if !ok {
+			return true
+		}
+		rv := info.Defs[rid]
+		for _, st := range cc.Body {
+			if isAppend(st) {
+				call := ast.Unparen(st.(*ast.AssignStmt).Rhs[0]).(*ast.CallExpr)
+				if conv, ok := ast.Unparen(call.Args[1]).(*ast.CallExpr); ok && calleeID(info, conv) == "pkg/core.filePacked2BundleEntry" && len(conv.Args) == 1 {
+					if id, ok := ast.Unparen(conv.Args[0]).(*ast.Ident); ok && info.Uses[id] == rv {
+						okRecv = true
+					}
+				}
+			}
+		}
+		return true
+	})
+	c.check(okRecv && nAppend > 0, rule, f.ID+":append-received", p.Pos(f.Decl.Pos()), "every received upload result is appended to the batch", "the collector no longer appends filePacked2BundleEntry(received value) to the batch in the receive case: uploaded files are missing from the file lists")
+	c.check(okThreshold, rule, f.ID+":threshold", p.Pos(f.Decl.Pos()), "a file list is written when the batch holds entriesPerFile entries", "the batch is no longer written exactly when len(batch) == int(bundleEntriesPerFile): file lists hold another number of entries than the reader (position = index * entriesPerFile) assumes")
+	if len(problems) == 0 {
+		c.ok(rule, f.ID+":typestate", p.Pos(f.Decl.Pos()), "empty -append-> dirty -write-> written -reset-> empty holds on every path; the descriptor is written with no entry left unwritten")
+	}
+	for i, m := range problems {
+		c.fail(rule, f.ID+":typestate", p.Pos(probPos[i]), m)
+	}
+}
+
+// checkBuilderArgumentRoles (C06, C20 and every property whose keys are built by pkg/model): several path builders take
+// two or more strings (repo, bundle ID, diamond ID, split ID, label…). An argument whose own name says it is another
+// parameter of the same call (bundle.BundleID given for `repo` while `bundleID` exists) is a swap: the key built does not
+// address the object meant. Only such cross-role evidence is reported; arguments whose name says nothing are accepted.
+func checkBuilderArgumentRoles(c *Ctx, rule string, pkgs ...string) int {
+	p := c.P
+	stem := func(s string) string {
+		s = strings.ToLower(s)
+		for _, suf := range []string{"id", "name", "descriptor", "desc"} {
+			s = strings.TrimSuffix(s, suf)
+		}
+		return s
+	}
+	roleOfArg := func(f *FuncInfo, e ast.Expr) string {
+		info := f.Info()
+		switch x := ast.Unparen(e).(type) {
+		case *ast.Ident:
+			return stem(x.Name)
+		case *ast.SelectorExpr:
+			n := x.Sel.Name
+			if n == "ID" || n == "Name" {
+				// b.ID: the role is the type of b
+				if t := info.TypeOf(x.X); t != nil {
+					id := namedTypeID(t)
+					if i := strings.LastIndex(id, "."); i >= 0 {
+						return stem(id[i+1:])
+					}
+				}
+				return ""
+			}
+			return stem(n)
+		}
+		return ""
+	}
+	n := 0
+	for _, pk := range pkgs {
+		for _, f := range p.FuncsIn(pk) {
+			if f.Decl.Body == nil {
+				continue
+			}
+			info := f.Info()
+			ast.Inspect(f.Decl.Body, func(nd ast.Node) bool {
+				call, ok := nd.(*ast.CallExpr)
+				if !ok {
+					return true
+				}
+				fn, ok := calleeObj(info, call).(*types.Func)
+				if !ok || fn.Pkg() == nil || !strings.HasPrefix(fn.Pkg().Path(), modPrefix) {
+					return true
+				}
+				sig := fn.Type().(*types.Signature)
+				if sig.Variadic() || sig.Params().Len() != len(call.Args) {
+					return true
+				}
+				// string parameters with a role name
+				roles := map[string]int{}
+				for i := 0; i < sig.Params().Len(); i++ {
+					pv := sig.Params().At(i)
+					if b, ok := pv.Type().Underlying().(*types.Basic); ok && b.Kind() == types.String && pv.Name() != "" {
+						if st := stem(pv.Name()); st != "" {
+							roles[st] = i
+						}
+					}
+				}
+				if len(roles) < 2 {
+					return true
+				}
+				n++
+				bad := ""
+				for st, i := range roles {
+					got := roleOfArg(f, call.Args[i])
+					if got == "" || got == st {
+						continue
+					}
+					if j, isOther := roles[got]; isOther && j != i {
+						bad = "argument #" + itoa(i+1) + " `" + exprString(call.Args[i]) + "` is given for parameter `" + sig.Params().At(i).Name() + "` although it names parameter `" + sig.Params().At(j).Name() + "` of the same call"
+					}
+				}
+				c.check(bad == "", rule, callKey(f, call), p.Pos(call.Pos()),
+					"string arguments of "+shortCallee(funcID(fn))+" are not crossed",
+					"call of "+shortCallee(funcID(fn))+": "+bad+": the two values are swapped, so the key / object addressed is not the one meant")
+				return true
+			})
+		}
+	}
+	return n
+}
